@@ -233,6 +233,25 @@ pub fn gen_getvalues_body(cx: &mut Ctx, max_pair: usize) -> Vec<u8> {
     body
 }
 
+/// Scale: a GetValues body with hundreds of tiny pairs (unknown names) and well-known names behind the 256th pair
+/// (and sometimes among the first ones). A few KiB; meant to be examined whole by one parse call.
+pub fn gen_getvalues_many(cx: &mut Ctx) -> Vec<u8> {
+    let mut body = Vec::new();
+    let n = cx.ch.one_of(&[257usize, 258, 300, 513, 700, 1200]) + cx.ch.range(0, 3);
+    let early = cx.ch.chance(1, 3);
+    for i in 0..n {
+        if early && i == 3 { nv(cx.ch.one_of(&VAR_NAMES).as_bytes(), b"", &mut body); }
+        let l = 1 + (i % 3);
+        let name: Vec<u8> = (0..l).map(|j| b'a' + ((i / 3 + j * 7) % 26) as u8).collect();
+        let val: &[u8] = if i % 11 == 0 { b"1" } else { b"" };
+        nv(&name, val, &mut body);
+    }
+    let k = cx.ch.range(1, 3);
+    for _ in 0..k { nv(cx.ch.one_of(&VAR_NAMES).as_bytes(), b"", &mut body); }
+    cx.probe("getvalues_over_256_pairs");
+    body
+}
+
 /// One noise record for the given phase. Returns the record; the models decide what it elicits.
 pub fn gen_noise(cx: &mut Ctx, phase: Phase, own: u16, max_pair: usize) -> Rec {
     let mut r = gen_noise_inner(cx, phase, own, max_pair);
